@@ -2,10 +2,13 @@ package drive
 
 import (
 	"fmt"
+	"math"
 	"os"
 	"path/filepath"
 	"strings"
 	"time"
+
+	"github.com/ostafen/clover/v2/document"
 
 	"verif/harness/core"
 	"verif/harness/gen"
@@ -165,6 +168,25 @@ func RunExportImport(c *core.Ctx) {
 	defer os.RemoveAll(dir)
 	path := filepath.Join(dir, "export.json")
 
+	if r.P(40) {
+		// an export that fails half way (a value JSON cannot express, after two documents that it can): whatever it
+		// leaves behind in the handle or the process must not leak into the next export
+		h.DB.CreateCollection("unexportable")
+		for i, v := range []any{int64(1), "two", math.NaN(), int64(4)} {
+			d := document.NewDocument()
+			d.Set("_id", fixedID(7000+i))
+			d.Set("v", v)
+			h.DB.Insert("unexportable", d)
+		}
+		e := Do(func() error { return h.DB.ExportCollection("unexportable", filepath.Join(dir, "unexportable.json")) })
+		c.Log("ExportCollection(\"unexportable\") [holds NaN] -> %v", e)
+		if pe, ok := IsPanic(e); ok {
+			s.viol(PanicSig(pe), "ExportCollection of a collection holding NaN panicked: %v", pe.Val)
+			return
+		}
+		h.DB.DropCollection("unexportable")
+		c.Count("failed_exports_before_the_export", 1)
+	}
 	// export does not modify the source
 	before := s.rawSnapshot()
 	got, e := s.run(fmt.Sprintf("ExportCollection(%q)", "src"), true, func() error { return s.h.DB.ExportCollection("src", path) })
